@@ -347,11 +347,11 @@ def r6_exit_table(R, sh: SolverShape, linker: bool = False) -> None:
             R.violation(sh.q, f'status-member:{m}', f'status {m} stored by the final store is outside {sorted(allowed)}', where=sh.where(fs))
             continue
         if m == 'SOLVED':
-            ok = fl.last_test(tg, conv.id, 'T')
+            ok = fl.last_test(tg, conv.id, sh.conv_label)
             p = None
             if not ok:
                 p = fl.some_path(sorted(tg, key=repr)[0], avoid_nodes=[conv.id]) or next(
-                    (fl.some_path(t_, skip_edges=[(conv.id, 'T')]) for t_ in sorted(tg, key=repr) if fl.some_path(t_, skip_edges=[(conv.id, 'T')])), None)
+                    (fl.some_path(t_, skip_edges=[(conv.id, sh.conv_label)]) for t_ in sorted(tg, key=repr) if fl.some_path(t_, skip_edges=[(conv.id, sh.conv_label)])), None)
             R.check(ok, sh.q, 'status-row:SOLVED', "'.' reaches the final store only when the last convergence test succeeded",
                     "status '.' is assigned outside the true branch of the convergence test", where=sh.where(fs),
                     path=sh.cfg.describe_path(p) if p else None)
@@ -471,14 +471,14 @@ def r8_hooks(R, sh: SolverShape) -> None:
     R.check(len(after) == 1, sh.q, 'after-single-site', 'one call site of solve_t_after', 'several call sites of solve_t_after',
             where=sh.where(na))
     conv, _ = sh.convergence_node()
-    R.check((conv.id, 'T') in sh.guards_of(na.id), sh.q, 'after-under-convergence',
+    R.check((conv.id, sh.conv_label) in sh.guards_of(na.id), sh.q, 'after-under-convergence',
             'solve_t_after runs only on the converging pass', 'solve_t_after is not confined to the true branch of the convergence test',
             where=sh.where(na), path=sh.path_to(na))
     R.check(sh.loop.id not in sh.cfg.reachable_from(na.id) - {na.id} or not sh.cfg.reaches(na.id, sh.loop.id),
             sh.q, 'after-at-most-once', 'after solve_t_after the loop is left (at most once per solve)',
             'the pass loop can continue after solve_t_after', where=sh.where(na))
     # every converged exit ran the post hook: conv T -> break only via na
-    tgt = [b for (b, lab) in conv.succ if lab == 'T']
+    tgt = [b for (b, lab) in conv.succ if lab == sh.conv_label]
     exits = [b for (b, lab) in sh.loop_exit_targets()]
     ok = all(must_pass(sh.cfg, t, e, [na.id]) for t in tgt for e in exits)
     R.check(ok, sh.q, 'converged-exit-via-after', "every exit taken after convergence has run solve_t_after",
@@ -519,20 +519,17 @@ def r9_solve_period(R) -> None:
     R.check(ok, q, 'position-arg', 'the position passed to solve_t is _locate_period_in_span(period)',
             f'first argument of solve_t is `{text(a0)}`, not the located position of `period`',
             where=f'{fi.module.relpath}:{call.lineno}')
-    # KeyError rejection of non-int positions dominates the call
-    dom = dominators(cfg)
-    ks = [n for n in cfg.nodes if isinstance(n.ast, ast.Raise) and 'KeyError' in text(n.ast.exc)]
+    # KeyError rejection of non-int positions: the call runs only for an int position, anything else raises KeyError
+    from rules.common import Fn
+    f = Fn(R, q)
+    cn = [n for n in f.cfg.nodes if n.kind == 'stmt' and isinstance(n.ast, ast.Return) and is_self_call(n.ast.value, 'solve_t')]
     good = False
-    for k in ks:
-        for t in cfg.nodes:
-            if t.kind == 'test' and t.id in dom[k.id] and 'isinstance' in text(t.ast) and t.id in dom[calls[0].id]:
-                u = t.ast
-                if isinstance(u, ast.UnaryOp) and isinstance(u.op, ast.Not) and isinstance(u.operand, ast.Call) \
-                        and dotted(u.operand.func) == 'isinstance' and text(u.operand.args[1]) == 'int' \
-                        and isinstance(a0, ast.Name) and text(u.operand.args[0]) == a0.id:
-                    good = True
+    if cn and isinstance(a0, ast.Name):
+        guarded = f.holds(cn[0].id, f'isinstance({a0.id}, int)')
+        ks = [k for k in f.raises('KeyError') if f.holds(k.id, f'isinstance({a0.id}, int)', False)]
+        good = guarded and bool(ks)
     R.check(good, q, 'keyerror-guard', 'a non-int position is rejected with KeyError before solving',
-            'no `if not isinstance(t, int): raise KeyError` dominates the solve_t call', where=fi.where)
+            'the solve_t call is not confined to `isinstance(t, int)` with KeyError raised otherwise', where=fi.where)
 
 
 def forwarding_identity(R, q: str, call: ast.Call, options, where: str = '', extra_kw=()) -> None:
